@@ -128,4 +128,23 @@ example : (exec exCfg (init [] [(1, 7)]) exSched).map exView = some (.returned, 
 example : (exec exCfg (init [] []) [.spawn, .genClose, .worker 0 .closedExit, .wgWait, .closeErrc, .closeDone,
     .ctlDone, .tick, .ctlTimer]).isSome = false := by rfl
 
+/-- a reply read and `Put` in the first tick of a two-tick delay; copier and logger are not scheduled before the
+    controller cancels -/
+def lateDropSched : List Label :=
+  [.spawn, .genClose, .worker 0 .closedExit, .wgWait, .closeErrc, .closeDone, .ctlDone, .tick, .extRead, .extPut,
+   .tick, .ctlTimer, .ctlCancel, .logCtx, .drainExit, .mainReturn]
+
+/-- **`C16_full` does not hold** of the model: the late reply was read and handed to `Put` inside the delay
+    (`C16_late_accepted`), yet a schedule that starves the copier/logger until the controller's `cancel()` ends with it
+    not printed.  What C16 can promise without a scheduling hypothesis is therefore exactly what is proved above;
+    printing needs `C08.DrainedAtCancel`. -/
+theorem C16_full_fails : ¬ C16_full := by
+  intro h
+  have hex : exec exCfg (init [] [(1, 7)]) lateDropSched
+      = some ((exec exCfg (init [] [(1, 7)]) lateDropSched).get (by decide)) := by simp
+  have hr := exec_reachable (c := exCfg) lateDropSched _ Reachable.init hex
+  have hp := h exCfg [] [(1, 7)] _ (by decide) hr (by decide) (by decide) 7 (by decide)
+  revert hp
+  decide
+
 end SxVerif.C16
